@@ -101,8 +101,19 @@ class ModuleInfo:
         self.imports: Dict[str, Tuple[str, str]] = {}  # local name -> (module, name)
         self.module_imports: Dict[str, str] = {}  # local alias -> external module
         self.assigns: Dict[str, ast.expr] = {}
+        # names bound at module level inside a compound statement (with / try / if / for): values the model does not
+        # compute (e.g. data loaded from a file) - unknown objects, not missing names
+        self.nested_assigned: set = set()
         for st in tree.body:
             self._top(st)
+            if isinstance(st, (ast.With, ast.Try, ast.If, ast.For, ast.While)):
+                for n in ast.walk(st):
+                    if isinstance(n, (ast.Assign, ast.AnnAssign, ast.AugAssign)):
+                        for t in (n.targets if isinstance(n, ast.Assign) else [n.target]):
+                            if isinstance(t, ast.Name):
+                                self.nested_assigned.add(t.id)
+                    elif isinstance(n, ast.withitem) and isinstance(n.optional_vars, ast.Name):
+                        self.nested_assigned.add(n.optional_vars.id)
 
     def _top(self, st: ast.stmt) -> None:
         if isinstance(st, ast.ClassDef):
